@@ -78,7 +78,9 @@ func (s bitmap64) Remove(value uint64) {
 func (s bitmap64) Xor(provider Provider[uint64]) {
 	switch typedProvider := provider.(type) {
 	case bitmap64:
-		s.bitmap.Xor(typedProvider.bitmap)
+		// roaring64's in-place Xor adopts containers of its operand without copying them, which leaves the two
+		// bitmaps sharing storage; operate on a copy so that later edits to either set stay invisible in the other.
+		s.bitmap.Xor(typedProvider.bitmap.Clone())
 
 	case Duplex[uint64]:
 		providerCopy := roaring64.New()
